@@ -790,24 +790,29 @@ def _assign_of(inst, args):
 # ---------------------------------------------------------------------------------------------------------------------
 # native companions of a unit: CPython cross-check of the interpreter and the bounded run-time-contract layer
 # ---------------------------------------------------------------------------------------------------------------------
+def _same_value(x, y, depth=0):
+    if type(x) is not type(y):
+        return isinstance(x, (int, float)) and isinstance(y, (int, float)) and not isinstance(x, bool) and not isinstance(y, bool) and x == y
+    if isinstance(x, BaseException):
+        return True
+    if isinstance(x, (tuple, list)):
+        return len(x) == len(y) and all(_same_value(a, b, depth + 1) for a, b in zip(x, y))
+    try:
+        from xlcalculator.xlfunctions import func_xltypes
+        if isinstance(x, func_xltypes.ExcelType):
+            return type(x.value) is type(y.value) and (x.value == y.value or x.value != x.value)
+        r = (x == y)
+        return bool(r) if isinstance(r, bool) else True
+    except Exception:
+        return True
+
+
 def _same_outcome(a, b):
     if a.kind != b.kind:
         return False
     if a.kind == 'raise':
         return type(a.value) is type(b.value)
-    x, y = a.value, b.value
-    if type(x) is not type(y):
-        return False
-    try:
-        from xlcalculator.xlfunctions import func_xltypes
-        if isinstance(x, func_xltypes.ExcelType):
-            return type(x.value) is type(y.value) and (x.value == y.value or x.value != x.value)
-        if isinstance(x, BaseException):
-            return True
-        r = (x == y)
-        return bool(r) if isinstance(r, (bool,)) else True
-    except Exception:
-        return True
+    return _same_value(a.value, b.value)
 
 
 def crosscheck_instance(inst, n=6, seed=0):
@@ -823,6 +828,11 @@ def crosscheck_instance(inst, n=6, seed=0):
             args = [shape.sample(rng) for _, shape in inst.inputs]
         except (IndexError, NotImplementedError):
             break
+        try:
+            if not unit.requires(*args):
+                continue
+        except Exception:
+            continue
         nat = native_outcome(unit, fn, [_clone(a) for a in args])
         it = Interp()
 
